@@ -142,16 +142,26 @@ func leaked(text string, sc []string) string {
 var withLineRe = regexp.MustCompile(`(?m)^(?:with|    ) ([^\s.\[]+)[^\n]* (?:as|set to) [^\n]*$`)
 
 // checkDiags inspects every diagnostic and its renderings. It returns the number of diagnostics checked.
-func checkDiags(cx *lib.Ctx, diags hcl.Diagnostics, files map[string]*hcl.File, sc []string, input func() string, mode string) int {
+func checkDiags(cx *lib.Ctx, diags hcl.Diagnostics, files map[string]*hcl.File, sc []string, input func() string, origin string) int {
 	res := cx.Res
+	fail := func(f lib.Failure) {
+		res.Count("found-by:" + origin + ":" + f.Key)
+		res.Fail(f)
+	}
 	for _, d := range diags {
 		res.Count("diag:" + site(d.Summary))
 		if t := leaked(d.Summary, sc); t != "" {
-			res.Fail(lib.Failure{Kind: "oracle", Key: "leak:" + site(strings.ReplaceAll(d.Summary, t, "")) + "-summary", Desc: "the diagnostic summary contains the content of a marked value", Input: input(), Impl: d.Summary + "\n" + d.Detail})
+			fail(lib.Failure{Kind: "oracle", Key: "leak:" + site(strings.ReplaceAll(d.Summary, t, "")) + "-summary", Desc: "the diagnostic summary contains the content of a marked value", Input: input(), Impl: d.Summary + "\n" + d.Detail})
 			continue
 		}
 		if t := leaked(d.Detail, sc); t != "" {
-			res.Fail(lib.Failure{Kind: "oracle", Key: "leak:" + site(d.Summary) + "-detail", Desc: "the diagnostic detail contains the content of a marked value", Input: input(), Impl: d.Summary + "\n" + d.Detail})
+			key := "leak:" + site(d.Summary) + "-detail"
+			if scopeHoldsUnmarked(d.EvalContext, t) {
+				// the secret reached this evaluation through a child-scope variable (for / dynamic-block
+				// iterator) that was bound without the marks of its collection: a different root cause
+				key += ":via-unmarked-scope-variable"
+			}
+			fail(lib.Failure{Kind: "oracle", Key: key, Desc: "the diagnostic detail contains the content of a marked value", Input: input(), Impl: d.Summary + "\n" + d.Detail})
 			continue
 		}
 		for _, cfg := range []struct {
@@ -194,7 +204,7 @@ func checkDiags(cx *lib.Ctx, diags hcl.Diagnostics, files map[string]*hcl.File, 
 				}
 				break
 			}
-			res.Fail(lib.Failure{Kind: "oracle", Key: key, Desc: "the text rendering of a diagnostic (whose summary and detail are clean) contains the content of a marked value", Input: input(), Impl: buf.String()})
+			fail(lib.Failure{Kind: "oracle", Key: key, Desc: "the text rendering of a diagnostic (whose summary and detail are clean) contains the content of a marked value", Input: input(), Impl: buf.String()})
 			break
 		}
 	}
@@ -280,11 +290,11 @@ func checkExprSource(cx *lib.Ctx, src string, node *lib.Node, s evalgen.Scope, s
 		return
 	}
 	res.Count(origin + ":with-diagnostics")
-	checkDiags(cx, diags, exprFiles(src), sc, input, "expr")
+	checkDiags(cx, diags, exprFiles(src), sc, input, origin)
 	res.Case(src, true)
 }
 
-func checkJSONSource(cx *lib.Ctx, src string, s evalgen.Scope, sc []string) {
+func checkJSONSource(cx *lib.Ctx, src string, s evalgen.Scope, sc []string, origin string) {
 	res := cx.Res
 	e, pd := hcljson.ParseExpression([]byte(src), "case.json")
 	if pd.HasErrors() || leaked(src, sc) != "" {
@@ -299,7 +309,7 @@ func checkJSONSource(cx *lib.Ctx, src string, s evalgen.Scope, sc []string) {
 		return
 	}
 	res.Count("json:with-diagnostics")
-	checkDiags(cx, diags, map[string]*hcl.File{"case.json": {Bytes: []byte(src)}}, sc, input, "json")
+	checkDiags(cx, diags, map[string]*hcl.File{"case.json": {Bytes: []byte(src)}}, sc, input, origin+"-json")
 	res.Case("json|"+src, true)
 }
 
@@ -312,7 +322,7 @@ var jsonFamilies = []string{
 // ---------------------------------------------------------------------------
 // bodies
 
-func checkBodyCase(cx *lib.Ctx, b *evalgen.BodyCase, sc []string) {
+func checkBodyCase(cx *lib.Ctx, b *evalgen.BodyCase, sc []string, origin string) {
 	res := cx.Res
 	if leaked(b.Src, sc) != "" {
 		res.Count("source-contains-secret-skipped")
@@ -333,7 +343,7 @@ func checkBodyCase(cx *lib.Ctx, b *evalgen.BodyCase, sc []string) {
 		return
 	}
 	res.Count("body:with-diagnostics")
-	checkDiags(cx, diags, b.Files(), sc, input, "body")
+	checkDiags(cx, diags, b.Files(), sc, input, origin+"-body")
 	res.Case("body|"+b.Src, true)
 }
 
@@ -399,7 +409,7 @@ func run(cx *lib.Ctx) {
 			checkExprSource(cx, f, nil, s, sc.texts, "family")
 		}
 		for _, f := range jsonFamilies {
-			checkJSONSource(cx, f, s, sc.texts)
+			checkJSONSource(cx, f, s, sc.texts, "family")
 		}
 		for _, bf := range bodyFamilies {
 			b := &evalgen.BodyCase{Scope: s, Items: bf.items, Src: bf.src}
@@ -408,7 +418,7 @@ func run(cx *lib.Ctx) {
 				res.Count("body-family-parse-error")
 				continue
 			}
-			checkBodyCase(cx, bc, sc.texts)
+			checkBodyCase(cx, bc, sc.texts, "family")
 		}
 	}
 	n := cx.Scale(5000, 100000)
@@ -441,7 +451,7 @@ func run(cx *lib.Ctx) {
 		checkExprSource(cx, c.Src, c.Node, s, sc.texts, "generated")
 		if r.Chance(1, 6) {
 			if src, ok := evalgen.JSONSource(r, c.Node, 70); ok {
-				checkJSONSource(cx, src, s, sc.texts)
+				checkJSONSource(cx, src, s, sc.texts, "generated")
 			}
 		}
 	}
@@ -461,7 +471,7 @@ func run(cx *lib.Ctx) {
 			res.Sample(b.Src)
 		}
 		evalgen.BodyStats(res, b.Tree, 0)
-		checkBodyCase(cx, b, sc.texts)
+		checkBodyCase(cx, b, sc.texts, "generated")
 	}
 	d := res.Distribution
 	if t := d["generated:with-diagnostics"] + d["generated:no-diagnostics"]; t > 0 {
@@ -516,7 +526,7 @@ func replay(cx *lib.Ctx, doc string) {
 			return
 		}
 		cx.Res.Sample(b.Src)
-		checkBodyCase(cx, b, head.Extra.Secrets)
+		checkBodyCase(cx, b, head.Extra.Secrets, "replay")
 	case "json":
 		var cj evalgen.CaseJSON
 		if err := json.Unmarshal([]byte(doc), &cj); err != nil {
@@ -529,7 +539,7 @@ func replay(cx *lib.Ctx, doc string) {
 			return
 		}
 		cx.Res.Sample(cj.Src)
-		checkJSONSource(cx, cj.Src, s, head.Extra.Secrets)
+		checkJSONSource(cx, cj.Src, s, head.Extra.Secrets, "replay")
 	default:
 		c, _, err := evalgen.DecodeCase(doc)
 		if err != nil {
@@ -539,4 +549,36 @@ func replay(cx *lib.Ctx, doc string) {
 		cx.Res.Sample(c.Src)
 		checkExprSource(cx, c.Src, c.Node, c.Scope, head.Extra.Secrets, "replay")
 	}
+}
+
+// scopeHoldsUnmarked reports whether some variable of the diagnostic's evaluation context (or a parent)
+// holds the text t in a part that carries no mark.
+func scopeHoldsUnmarked(ctx *hcl.EvalContext, t string) bool {
+	var walk func(v cty.Value) bool
+	walk = func(v cty.Value) bool {
+		if v.IsMarked() || !v.IsKnown() || v.IsNull() {
+			return false
+		}
+		ty := v.Type()
+		switch {
+		case ty == cty.String:
+			return strings.Contains(v.AsString(), t)
+		case ty.IsCollectionType() || ty.IsTupleType() || ty.IsObjectType():
+			for it := v.ElementIterator(); it.Next(); {
+				k, ev := it.Element()
+				if walk(k) || walk(ev) {
+					return true
+				}
+			}
+		}
+		return false
+	}
+	for c := ctx; c != nil; c = c.Parent() {
+		for _, v := range c.Variables {
+			if walk(v) {
+				return true
+			}
+		}
+	}
+	return false
 }
